@@ -39,8 +39,14 @@ func (c *fakeConn) SetReadDeadline(t time.Time) error  { return nil }
 func (c *fakeConn) SetWriteDeadline(t time.Time) error { return nil }
 
 func mkBundle(i int) bpv7.Bundle {
+	maxn := 2
+	if i == 0 {
+		// the first bundle's payload length ranges further (check parameter), so that the frame's length header crosses
+		// its 1-, 2- and 3-byte encodings
+		maxn = verif.Param("maxn0", 2)
+	}
 	b, err := bpv7.Builder().Source("dtn://src/").Destination("dtn://dst/").CreationTimestampEpoch().Lifetime("1h").
-		BundleAgeBlock(uint64(i)).PayloadBlock(verif.Bytes(nm("pl", i), verif.Size(nm("n", i), 0, 2))).Build()
+		BundleAgeBlock(uint64(i)).PayloadBlock(verif.Bytes(nm("pl", i), verif.Size(nm("n", i), 0, maxn))).Build()
 	if err != nil {
 		verif.Assert(false, "bundle builds")
 	}
@@ -59,10 +65,10 @@ func enc(b bpv7.Bundle) []byte {
 // as the same bundles in the same order, keep-alives invisible; with a failing write, Send returns an error and the
 // peer is reported as gone.
 func H12_Mtcp() {
-	k := verif.Size("k", 1, 2)
+	k := verif.Size("k", 1, verif.Param("maxk", 2))
 	failAt := 0
 	if verif.Bool("fail") {
-		failAt = verif.Size("failat", 1, 4)
+		failAt = verif.Size("failat", 1, verif.Param("maxfail", 4))
 	}
 	conn := &fakeConn{failAt: failAt}
 	client := &MTCPClient{conn: conn, peer: bpv7.DtnNone(), reportChan: make(chan cla.ConvergenceStatus, 16)}
@@ -84,7 +90,7 @@ func H12_Mtcp() {
 		}
 		sent = append(sent, enc(b))
 	}
-	verif.Assert(verif.Implies(failAt != 0 && failAt <= 2, failed), "a send on a broken connection returns an error")
+	verif.Assert(verif.Implies(failAt != 0 && failAt <= 2*k, failed), "a send on a broken connection returns an error")
 	if failed {
 		verif.Reach("failed")
 	}
